@@ -132,7 +132,14 @@ class Scenario:
                     # or of the blank line (the decrypted pieces reach the HTTP layer separately)
                     crlf = [i + 1 for i in range(min(len(plain), 1000) - 1) if plain[i : i + 2] == b"\r\n"]
                     tail_cuts = [[n] for n in (first_len - 1, first_len - 2, len(plain) - 1, len(plain) - 2) if 0 < n <= 1024]
-                    r["wire"] = conn.wire(plain, self.rng.choice([None, [64], [1024], [7, 300]] + ([[self.rng.choice(crlf)]] * 2 if crlf else []) + ([self.rng.choice(tail_cuts)] * 2 if tail_cuts else [])))
+                    if a == "G" and conn.secure and self.rng.random() < 0.5:
+                        # response and event in 64-byte frames, one frame per read with the loop running in between: some read
+                        # completes the response AND carries the beginning of the event, whose rest arrives after the caller
+                        # of the request has been resumed
+                        r["wire"] = conn.wire(plain, [64])
+                        r["frame_by_frame"] = True
+                    else:
+                        r["wire"] = conn.wire(plain, self.rng.choice([None, [64], [1024], [7, 300]] + ([[self.rng.choice(crlf)]] * 2 if crlf else []) + ([self.rng.choice(tail_cuts)] * 2 if tail_cuts else [])))
                     r["sent"] = 0
                 wire = r["wire"]
                 if a == "H" and r["answered"] == 0:
@@ -146,6 +153,12 @@ class Scenario:
                     just_answered = r
                     pending_before = not self.reqs[r["id"]]["task"].done()
                     await conn.send_pieces(rest, sorted({len(rest) // 3, 2 * len(rest) // 3, max(1, len(rest) - self.rng.randint(1, 17))}))
+                elif a == "G" and r["sent"] == 0 and r.get("frame_by_frame"):
+                    r["answered"] = 2
+                    just_answered = r
+                    pending_before = not self.reqs[r["id"]]["task"].done()
+                    ctx.count("responses_and_events_delivered_frame_by_frame")
+                    await conn.send_pieces(wire, list(range(82, len(wire), 82)))
                 else:
                     conn.transport.write(wire[r["sent"] :])
                     r["answered"] = 2
@@ -246,6 +259,14 @@ class Scenario:
                 self.ctx.violation("answered-request-failed", f"after action {a} in schedule {self.schedule}: the response for request {just_answered['id']} was written completely on a healthy connection, the request failed with {rq['exc']!r}", {"schedule": self.schedule, "api": self.api})
             else:
                 ctx.count("answered_requests_completed")
+                if a == "G" and just_answered.get("frame_by_frame"):
+                    # ... and the event written right behind that response, on the same healthy connection, reached the listeners
+                    v = self.events_sent[-1]
+                    seen = [ev[(1, 9)].get("value") for ev in self.events_got if ev and (1, 9) in ev]
+                    if v not in seen:
+                        self.ctx.violation("event-lost", f"after action G in schedule {self.schedule}: the event written right behind the response for request {just_answered['id']} (frame by frame, healthy connection) never reached the listeners", {"schedule": self.schedule, "api": self.api})
+                    else:
+                        ctx.count("events_behind_responses_delivered")
         # the connection dropped: every request outstanding on it fails at once (not after its own 30 s timer)
         for uid in must_fail:
             if not self.reqs[uid]["task"].done():
